@@ -2662,6 +2662,23 @@ class ArrayInterp(Interp):
                 self.finding("equivariance", e, "%s removes or masks whole rows / columns that hold a missing cell: defined for 2-D tables only, and cells that are present go with the missing one" % qn, fr)
                 return replace(a0, kind="plain" if "compress" in qn else a0.kind, shape="unknown", alias=S(), maskof=E, dataof=E)
             return Other("opaque")
+        if qn in ("numpy.putmask", "numpy.place", "numpy.put", "numpy.copyto") and isinstance(a0, Arr):
+            self.write_site(a0, e, "%s writes into its first argument" % qn, fr)
+            vals_ = A[2] if len(A) > 2 else (A[1] if qn == "numpy.copyto" and len(A) > 1 else None)
+            if qn in ("numpy.putmask", "numpy.place", "numpy.put") and isinstance(vals_, Arr) and vals_.shape != a0.shape:
+                # putmask(a, mask, values) takes values[n % len(values)] for FLAT POSITION n - not the k-th value for the k-th selected
+                # cell; place() does take them in order, but only over the selected cells of the flattened array
+                self.finding("equivariance", e, "%s scatters a shorter vector of values by flat position (values[n %% len(values)] goes to position n): once a cell is left out, every later cell receives another cell's value" % qn, fr)
+            return Other("none")
+        if qn == "numpy.interp" and isinstance(a0, Arr):
+            # piecewise-linear interpolation, value by value: the result has the shape of x
+            xs_ = [z_ for z_ in A[1:3] if isinstance(z_, (Arr, Scal))]
+            D_ = a0.D.union(*[z_.D for z_ in xs_]) if xs_ else a0.D
+            return replace(a0, kind="plain", alias=S(), M=E, Pc=a0.Pc | (a0.D if a0.kind == "masked" else E), D=D_, dt=F_, rng=(None, None), maskof=E, dataof=E, cmp=None, keeps=None)
+        if qn == "numpy.vectorize":
+            if "otypes" not in K:
+                self.finding("equivariance", e, "numpy.vectorize without `otypes` takes the element type of the whole result from the FIRST cell's value: whether fractions survive depends on which cell comes first", fr)
+            return Other("opaque")
         if qn in ("numpy.ma.getmaskarray", "numpy.ma.getmask"):
             if isinstance(a0, Arr):
                 return Arr(kind="plain", isbool=True, alias=S() if qn.endswith("getmaskarray") else a0.alias, M=a0.M, shape=a0.shape, dt=B_, maskof=a0.alias, constmask=a0.constmask, layermask=a0.layermask)
@@ -2711,6 +2728,16 @@ class ArrayInterp(Interp):
                     self.res.div_results[id(e)] = out_.alias
                 return out_
             return Scal(dt=F_)
+        if qn in ("numpy.logical_or", "numpy.logical_and", "numpy.logical_xor", "numpy.ma.mask_or", "numpy.ma.logical_or", "numpy.ma.logical_and") and any(isinstance(a_, ast.Starred) for a_ in e.args):
+            # f(*masks): a binary ufunc takes (x1, x2, out) positionally - with three elements the third IS the output buffer
+            # (and any other count is a TypeError)
+            for a_, v_ in zip(e.args, A):
+                if isinstance(a_, ast.Starred) and isinstance(v_, Lst) and v_.what in ("masks", "arrs") and v_.L:
+                    el_ = self.part_elem(v_)
+                    if isinstance(el_, Arr):
+                        self.write_site(replace(el_, alias=el_.alias | el_.maskof), e, "third positional argument of the binary ufunc %s is its `out` buffer" % qn.split(".")[-1], fr)
+                        return replace(el_, isbool=True, dt=B_, alias=S(), M=E, maskof=E)
+            self.unsupported("%s with starred arguments" % qn, e, fr)
         if qn in ("numpy.logical_or", "numpy.logical_and", "numpy.logical_xor", "numpy.ma.mask_or", "numpy.ma.logical_or", "numpy.ma.logical_and"):
             x, y = (A + [None, None])[:2]
             if isinstance(x, Arr) and isinstance(y, Arr):
